@@ -104,7 +104,7 @@ impl Builder {
 //@@ ret Result<ConnectionHandle, OpenError>
 //@@ subst `Transport::negotiate_amqp_header(` => `TransportS::negotiate_amqp_header(` rule=R9
 //@@ subst `(spawn_engine_fn)(engine, control_tx, outgoing_tx)` => `spawn_engine(engine, control_tx, outgoing_tx)` rule=R28
-//@@ subst `self .idle_time_out .map(|millis| Duration::from_millis(millis as u64))` => `idle_duration(self.idle_time_out)` rule=R18
+//@@ subst `self .idle_time_out .map(|millis| Duration::from_millis(millis as u64))` => `idle_duration(self.idle_time_out)` rule=R18 unless `\.map\(`
 //@@ spec
     ensures
         r is Ok ==> wired(r->Ok_0),     // [C12.connection-wiring.handle-controls-this-engine] [C11.connection-wiring.sessions-write-to-this-engine] [C01.connection-wiring.sessions-write-to-this-engine] [C14.connection-wiring.handle-reads-the-engines-stop-reason] the connection that comes up is wired to itself: the control queue and the session-frame queue the handle (and, through it, every session) writes to are the ones the engine reads, and the stop-reason cell the handle and the sessions read is the one of the engine's connection
@@ -153,7 +153,7 @@ impl ConnectionAcceptor {
 //@@ param framed_read : FramedR
 //@@ ret Result<ListenerConnectionHandle, OpenError>
 //@@ subst `Transport::negotiate_amqp_header(` => `TransportS::negotiate_amqp_header(` rule=R9
-//@@ subst `self .local_open .idle_time_out .map(|millis| Duration::from_millis(millis as u64))` => `idle_duration(self.local_open_idle)` rule=R18
+//@@ subst `self .local_open .idle_time_out .map(|millis| Duration::from_millis(millis as u64))` => `idle_duration(self.local_open_idle)` rule=R18 unless `\.map\(`
 //@@ subst `ConnectionEngine::open(` => `LConnectionEngine::open(` rule=R7
 //@@ subst `let connection_handle = ConnectionHandle {` => `let connection_handle = ListenerConnectionHandle {` rule=R7
 //@@ spec
